@@ -1,3 +1,845 @@
+(* C12/Proofs.v -- lemmas and main theorems for C12 (all inputs / op sequences / iteration orders). *)
 From NV.Common Require Import Base LockTable LockTableFacts.
 From NV.C12 Require Import Model.
 Open Scope N_scope.
+Arguments N.add : simpl never.
+Arguments N.sub : simpl never.
+Arguments N.eqb : simpl never.
+Arguments N.ltb : simpl never.
+Arguments N.leb : simpl never.
+
+(* ================================================================== 1. cycle detection *)
+(* dfs / visit / detect_from mirror dfs_detect / WaitForGraph::detect_cycles.  The neighbour order is
+   whatever `succ` returns and the start order is arbitrary, so everything below holds for every
+   HashMap / HashSet iteration order. *)
+Section DFSFacts.
+Variable succ : N -> list N.
+
+Definition ext {A} (l' l : list A) := exists k, l' = k ++ l.
+Lemma ext_refl {A} (l:list A) : ext l l. Proof. exists []; reflexivity. Qed.
+Lemma ext_trans {A} (a b c:list A) : ext a b -> ext b c -> ext a c.
+Proof. intros [k ->] [k' ->]. exists (k ++ k'). now rewrite app_assoc. Qed.
+Lemma ext_cons {A} (x:A) l : ext (x :: l) l. Proof. exists [x]; reflexivity. Qed.
+Lemma ext_In {A} (l' l:list A) x : ext l' l -> In x l -> In x l'.
+Proof. intros [k ->] H. apply in_or_app; auto. Qed.
+Lemma ext_len {A} (l' l : list A) : ext l' l -> (length l <= length l')%nat.
+Proof. intros [k ->]. rewrite app_length. lia. Qed.
+Lemma ext_eq {A} (l' l : list A) : ext l' l -> (length l' <= length l)%nat -> l' = l.
+Proof. intros [k ->] H. rewrite app_length in H. destruct k; [reflexivity|cbn in H; lia]. Qed.
+
+Lemma fold_none rec p l : fold_left (visit rec p) l None = None.
+Proof. induction l; cbn; auto. Qed.
+
+(* cycles only grow *)
+Lemma dfs_mono : forall fuel path node s r, dfs succ fuel path node s = Some r -> ext (cycs r) (cycs s).
+Proof.
+  induction fuel as [|f IH]; intros path node s r H; [discriminate|]. cbn [dfs] in H.
+  assert (G: forall l a r0, fold_left (visit (dfs succ f) (path ++ [node])) l (Some a) = Some r0 -> ext (cycs r0) (cycs a)).
+  { induction l as [|nb l IHl]; intros a r0 Hf; cbn in Hf.
+    - injection Hf as <-. apply ext_refl.
+    - destruct (mem nb (vis a)); [destruct (mem nb (path ++ [node]))|].
+      + apply IHl in Hf. cbn in Hf. eapply ext_trans; [exact Hf|apply ext_cons].
+      + apply IHl in Hf. exact Hf.
+      + destruct (dfs succ f (path ++ [node]) nb a) as [a'|] eqn:D; [|rewrite fold_none in Hf; discriminate].
+        apply IHl in Hf. eapply ext_trans; [exact Hf|eapply IH; exact D]. }
+  destruct (fold_left _ _ _) as [r0|] eqn:F; [|discriminate]. injection H as <-. cbn.
+  apply G in F. exact F.
+Qed.
+
+Lemma fold_mono : forall f path1 l b r0,
+  fold_left (visit (dfs succ f) path1) l (Some b) = Some r0 -> ext (cycs r0) (cycs b).
+Proof.
+  intros f path1. induction l as [|z l IHz]; intros b r0 Hf; cbn [fold_left visit] in Hf.
+  - injection Hf as <-. apply ext_refl.
+  - destruct (mem z (vis b)); [destruct (mem z path1)|].
+    + apply IHz in Hf. cbn in Hf. eapply ext_trans; [exact Hf|apply ext_cons].
+    + apply IHz in Hf. exact Hf.
+    + destruct (dfs succ f path1 z b) as [b'|] eqn:D; [|rewrite fold_none in Hf; discriminate].
+      apply IHz in Hf. eapply ext_trans; [exact Hf|eapply dfs_mono; exact D].
+Qed.
+
+Lemma dfold_none fuel l : fold_left (dstep succ fuel) l None = None.
+Proof. induction l; cbn; auto. Qed.
+Lemma dfold_mono : forall fuel l b r0,
+  fold_left (dstep succ fuel) l (Some b) = Some r0 -> ext (cycs r0) (cycs b).
+Proof.
+  intros fuel. induction l as [|z l IHz]; intros b r0 Hf; cbn [fold_left dstep] in Hf.
+  - injection Hf as <-. apply ext_refl.
+  - destruct (mem z (vis b)); [apply IHz in Hf; exact Hf|].
+    destruct (dfs succ fuel [] z b) as [b'|] eqn:D; [|rewrite dfold_none in Hf; discriminate].
+    apply IHz in Hf. eapply ext_trans; [exact Hf|eapply dfs_mono; exact D].
+Qed.
+
+
+(* ---------------- completeness ---------------- *)
+Fixpoint Ordered (l:list N) : Prop :=
+  match l with [] => True | x :: l' => (forall y, In y (succ x) -> In y l') /\ Ordered l' end.
+
+Definition J (v f path : list N) : Prop :=
+  (forall x, In x v <-> In x f \/ In x path) /\ Ordered f.
+
+Lemma dfs_complete : forall fuel path node s r,
+  dfs succ fuel path node s = Some r -> cycs r = cycs s ->
+  ~ In node (vis s) -> J (vis s) (fin s) path ->
+  J (vis r) (fin r) path /\ In node (fin r) /\ ext (fin r) (fin s) /\ incl (vis s) (vis r).
+Proof.
+  induction fuel as [|f IH]; intros path node s r H Hc Hn HJ; [discriminate|].
+  cbn [dfs] in H. set (path1 := path ++ [node]) in *.
+  assert (G: forall l a r0,
+     fold_left (visit (dfs succ f) path1) l (Some a) = Some r0 -> cycs r0 = cycs a ->
+     J (vis a) (fin a) path1 ->
+     J (vis r0) (fin r0) path1 /\ ext (fin r0) (fin a) /\ incl (vis a) (vis r0) /\ (forall y, In y l -> In y (fin r0))).
+  { induction l as [|nb l IHl]; intros a r0 Hf Hca Ha; cbn [fold_left visit] in Hf.
+    - injection Hf as <-. repeat split; try apply Ha; [apply ext_refl|apply incl_refl|intros y []].
+    - destruct (mem nb (vis a)) eqn:Mv; [destruct (mem nb path1) eqn:Mp|].
+      + (* back edge => a cycle was recorded => contradiction with "no new cycle" *)
+        exfalso.
+        pose proof (fold_mono _ _ _ _ _ Hf) as M. cbn in M.
+        apply ext_len in M. cbn in M. rewrite Hca in M. lia.
+      + (* neighbour already finished *)
+        destruct (IHl _ _ Hf Hca Ha) as [A [B [C D]]]. repeat split; auto; try apply A.
+        intros y [<-|Hy]; [|auto].
+        apply mem_In in Mv. apply mem_nIn in Mp. apply Ha in Mv. destruct Mv; [|contradiction].
+        eapply ext_In; eauto.
+      + (* unvisited neighbour: recurse *)
+        destruct (dfs succ f path1 nb a) as [a'|] eqn:D; [|rewrite fold_none in Hf; discriminate].
+        assert (Ea: cycs a' = cycs a).
+        { pose proof (dfs_mono _ _ _ _ _ D) as M1.
+          pose proof (fold_mono _ _ _ _ _ Hf) as M2.
+          apply ext_eq; [exact M1|]. apply ext_len in M2. rewrite Hca in M2. exact M2. }
+        apply mem_nIn in Mv.
+        destruct (IH path1 nb a a' D Ea Mv Ha) as [A1 [B1 [C1 D1]]].
+        destruct (IHl a' r0 Hf) as [A [B [C E]]]; [congruence|exact A1|].
+        repeat split; try apply A.
+        * eapply ext_trans; eauto.
+        * eapply incl_tran; eauto.
+        * intros y [<-|Hy]; [eapply ext_In; eauto|auto]. }
+  destruct (fold_left _ _ _) as [r0|] eqn:F; [|discriminate]. injection H as <-. cbn in *.
+  destruct HJ as [Jv Jo].
+  destruct (G _ _ _ F Hc) as [[A1 A2] [B [C D]]].
+  { cbn. split; [|exact Jo]. intros x. unfold path1. rewrite in_app_iff. cbn. rewrite Jv. tauto. }
+  cbn in *. repeat split.
+  - intros Hx. apply A1 in Hx. unfold path1 in Hx. rewrite in_app_iff in Hx. cbn in *. tauto.
+  - intros Hx. apply A1. unfold path1. rewrite in_app_iff. cbn in *. tauto.
+  - exact D.
+  - exact A2.
+  - left; reflexivity.
+  - eapply ext_trans; [apply ext_cons|exact B].
+  - intros x Hx. apply C. right. exact Hx.
+Qed.
+
+
+(* ---------------- soundness: every reported list is a cycle of the graph ---------------- *)
+Fixpoint is_path (p:list N) : Prop :=
+  match p with
+  | x :: ((y :: _) as p') => In y (succ x) /\ is_path p'
+  | _ => True
+  end.
+Definition is_cycle (c:list N) : Prop :=
+  c <> [] /\ is_path c /\ In (hd 0%N c) (succ (last c 0%N)).
+
+Lemma is_path_app_one : forall p x y, is_path (p ++ [x]) -> In y (succ x) -> is_path ((p ++ [x]) ++ [y]).
+Proof.
+  induction p as [|a p IH]; intros x y H Hy; cbn in *.
+  - auto.
+  - destruct p as [|b p]; cbn in *.
+    + destruct H. repeat split; auto.
+    + destruct H as [H1 H2]. split; auto. apply (IH x y); auto.
+Qed.
+Lemma is_path_suffix : forall p x, is_path p -> is_path (suffix_from x p).
+Proof.
+  induction p as [|a p IH]; intros x H; cbn; auto.
+  destruct (N.eqb a x); auto. apply IH. destruct p; cbn in *; tauto.
+Qed.
+Lemma suffix_hd : forall p x, In x p -> hd 0%N (suffix_from x p) = x /\ suffix_from x p <> [].
+Proof.
+  induction p as [|a p IH]; intros x H; [destruct H|]. cbn.
+  destruct (N.eqb_spec a x); [subst; split; [reflexivity|discriminate]|].
+  destruct H; [congruence|]. apply IH; auto.
+Qed.
+Lemma suffix_last : forall p x d, In x p -> last (suffix_from x p) d = last p d.
+Proof.
+  induction p as [|a p IH]; intros x d H; [destruct H|]. cbn [suffix_from].
+  destruct (N.eqb_spec a x); auto.
+  destruct H; [congruence|]. rewrite IH by auto. destruct p; [destruct H|reflexivity].
+Qed.
+
+Lemma dfs_sound : forall fuel path node s r,
+  dfs succ fuel path node s = Some r -> is_path (path ++ [node]) -> Forall is_cycle (cycs s) -> Forall is_cycle (cycs r).
+Proof.
+  induction fuel as [|f IH]; intros path node s r H Hp Hc; [discriminate|]. cbn [dfs] in H.
+  set (path1 := path ++ [node]) in *.
+  assert (G: forall l a r0, (forall nb, In nb l -> In nb (succ node)) ->
+             fold_left (visit (dfs succ f) path1) l (Some a) = Some r0 ->
+             Forall is_cycle (cycs a) -> Forall is_cycle (cycs r0)).
+  { induction l as [|nb l IHl]; intros a r0 Hl Hf Ha; cbn [fold_left visit] in Hf.
+    - injection Hf as <-. exact Ha.
+    - assert (Hl': forall z, In z l -> In z (succ node)) by (intros; apply Hl; right; auto).
+      destruct (mem nb (vis a)); [destruct (mem nb path1) eqn:Mp|].
+      + eapply IHl; [exact Hl'|exact Hf|]. cbn. constructor; [|exact Ha].
+        apply mem_In in Mp. destruct (suffix_hd path1 nb Mp) as [Hh Hn]. repeat split; auto.
+        * apply is_path_suffix. exact Hp.
+        * rewrite Hh. rewrite suffix_last by exact Mp. unfold path1. rewrite last_last. apply Hl. left; reflexivity.
+      + eapply IHl; eauto.
+      + destruct (dfs succ f path1 nb a) as [a'|] eqn:D; [|rewrite fold_none in Hf; discriminate].
+        eapply IHl; [exact Hl'|exact Hf|]. eapply IH; [exact D| |exact Ha].
+        unfold path1. apply is_path_app_one; [exact Hp|apply Hl; left; reflexivity]. }
+  destruct (fold_left _ _ _) as [r0|] eqn:F; [|discriminate]. injection H as <-. cbn.
+  eapply G; [|exact F|exact Hc]. auto.
+Qed.
+
+Theorem detect_sound : forall fuel starts r, detect_from succ fuel starts = Some r -> Forall is_cycle (cycs r).
+Proof.
+  intros fuel starts r. unfold detect_from.
+  assert (G: forall l a r0, fold_left (dstep succ fuel) l (Some a) = Some r0 -> Forall is_cycle (cycs a) -> Forall is_cycle (cycs r0)).
+  { induction l as [|z l IHl]; intros a r0 Hf Ha; cbn [fold_left dstep] in Hf.
+    - injection Hf as <-. exact Ha.
+    - destruct (mem z (vis a)); [eapply IHl; eauto|].
+      destruct (dfs succ fuel [] z a) as [a'|] eqn:D; [|rewrite dfold_none in Hf; discriminate].
+      eapply IHl; [exact Hf|]. eapply dfs_sound; [exact D|exact I|exact Ha]. }
+  intros H. eapply G; [exact H|constructor].
+Qed.
+
+(* reachability in one or more steps *)
+Inductive rp : N -> N -> Prop :=
+| rp1 : forall x y, In y (succ x) -> rp x y
+| rpS : forall x y z, In y (succ x) -> rp y z -> rp x z.
+
+Lemma Ordered_closed : forall l, Ordered l -> forall x y, In x l -> rp x y -> In y l.
+Proof.
+  induction l as [|a l IH]; intros Hord x y Hx R; [destruct Hx|]. destruct Hord as [Ha Ho].
+  assert (S1: forall u w, In u (a :: l) -> In w (succ u) -> In w (a :: l)).
+  { intros u w [<-|Hu] Hw; [right; apply Ha; exact Hw|]. right. eapply IH; eauto. constructor; exact Hw. }
+  induction R as [x y Hy|x y z Hy R IHR]; [eapply S1; eauto|]. apply IHR. eapply S1; eauto.
+Qed.
+
+Lemma Ordered_acyclic : forall l, Ordered l -> forall x, In x l -> ~ rp x x.
+Proof.
+  induction l as [|a l IH]; intros Hord x Hx R; [destruct Hx|]. destruct Hord as [Ha Ho].
+  destruct (in_dec N.eq_dec x l) as [Hl|Hnl]; [exact (IH Ho x Hl R)|].
+  destruct Hx as [<-|Hx]; [|contradiction].
+  (* a -> y ->* a with y in l, l closed => a in l *)
+  apply Hnl. inversion R as [x y Hy|x y z Hy R']; subst.
+  - apply Ha. exact Hy.
+  - eapply Ordered_closed; [exact Ho|apply Ha; exact Hy|exact R'].
+Qed.
+
+(* top level: if detect reports no cycle (and did not run out of fuel), no node it visited lies on a cycle,
+   and every start node was visited *)
+Theorem detect_complete : forall fuel starts r,
+  detect_from succ fuel starts = Some r -> cycs r = [] ->
+  (forall s0, In s0 starts -> In s0 (vis r)) /\ (forall x, In x (vis r) -> ~ rp x x).
+Proof.
+  intros fuel starts r H Hc.
+  assert (G: forall l a r0,
+    fold_left (dstep succ fuel) l (Some a) = Some r0 ->
+    cycs r0 = [] -> cycs a = [] -> J (vis a) (fin a) [] ->
+    J (vis r0) (fin r0) [] /\ incl (vis a) (vis r0) /\ forall s0, In s0 l -> In s0 (vis r0)).
+  { induction l as [|s0 l IHl]; intros a r0 Hf Hr Ha HJ; cbn [fold_left dstep] in Hf.
+    - injection Hf as <-. repeat split; try apply HJ; [apply incl_refl|intros ? []].
+    - destruct (mem s0 (vis a)) eqn:M.
+      + destruct (IHl _ _ Hf Hr Ha HJ) as [A [B C]]. repeat split; try apply A; auto.
+        intros y [<-|Hy]; [apply B; apply mem_In; exact M|auto].
+      + destruct (dfs succ fuel [] s0 a) as [a'|] eqn:D.
+        2:{ rewrite dfold_none in Hf. discriminate. }
+        assert (Ea: cycs a' = []).
+        { pose proof (dfs_mono _ _ _ _ _ D) as M1. rewrite Ha in M1.
+          pose proof (dfold_mono _ _ _ _ Hf) as M2.
+          apply ext_len in M2. rewrite Hr in M2. destruct (cycs a'); [reflexivity|cbn in M2; lia]. }
+        apply mem_nIn in M.
+        destruct (dfs_complete _ _ _ _ _ D) as [A1 [B1 [C1 D1]]]; [congruence|exact M|exact HJ|].
+        destruct (IHl _ _ Hf Hr Ea A1) as [A [B C]]. repeat split; try apply A.
+        * eapply incl_tran; eauto.
+        * intros y [<-|Hy]; [|auto]. apply B. apply A1. left. exact B1. }
+  destruct (G _ _ _ H Hc eq_refl) as [[A1 A2] [_ C]].
+  { cbn. split; [tauto|exact I]. }
+  split; [exact C|]. intros x Hx. apply (Ordered_acyclic _ A2). apply A1 in Hx. destruct Hx as [Hx|[]]. exact Hx.
+Qed.
+
+Lemma rp_snoc x y z : rp x y -> In z (succ y) -> rp x z.
+Proof.
+  induction 1 as [x y Hy|x y z' Hy R IH]; intros Hz.
+  - eapply rpS; [exact Hy|apply rp1; exact Hz].
+  - eapply rpS; [exact Hy|apply IH; exact Hz].
+Qed.
+
+Lemma path_reach : forall p x, is_path (x :: p) -> last (x :: p) 0%N = x \/ rp x (last (x :: p) 0%N).
+Proof.
+  induction p as [|y p IH]; intros x H.
+  - left; reflexivity.
+  - destruct H as [E P]. right. change (last (x :: y :: p) 0%N) with (last (y :: p) 0%N).
+    destruct (IH y P) as [L|R].
+    + rewrite L. apply rp1; exact E.
+    + eapply rpS; [exact E|exact R].
+Qed.
+
+(* a reported cycle puts its first node on a cycle of the relation *)
+Lemma cycle_rp c : is_cycle c -> rp (hd 0%N c) (hd 0%N c).
+Proof.
+  intros [Hne [Hp Hl]]. destruct c as [|x p]; [congruence|]. cbn [hd] in *.
+  destruct (path_reach p x Hp) as [L|R].
+  - rewrite L in Hl. apply rp1; exact Hl.
+  - eapply rp_snoc; eauto.
+Qed.
+
+(* a cycle is reported exactly when the relation has one -- for every neighbour order `succ` and every
+   start order, provided every node with an outgoing edge is a start (starts = edges.keys()) *)
+Theorem detect_from_iff : forall fuel starts r,
+  (forall x y, In y (succ x) -> In x starts) ->
+  detect_from succ fuel starts = Some r ->
+  (cycs r <> [] <-> exists x, rp x x).
+Proof.
+  intros fuel starts r Hst H. split.
+  - intros Hne. pose proof (detect_sound _ _ _ H) as Sd. destruct (cycs r) as [|c cs]; [congruence|].
+    inversion Sd; subst. eexists. eapply cycle_rp; eauto.
+  - intros [x R] Hc. destruct (detect_complete _ _ _ H Hc) as [V A]. apply (A x); [|exact R].
+    apply V. inversion R; subst; eapply Hst; eauto.
+Qed.
+
+End DFSFacts.
+
+(* ================================================================== 2. wait-for graph *)
+(* forward and reverse maps describe the same relation *)
+Definition GInv (g : wg) : Prop := forall w h, In h (succs g w) <-> In w (preds g h).
+
+Lemma wg_empty_GInv : GInv wg_empty.
+Proof. intros w h. unfold succs, preds; cbn. tauto. Qed.
+
+Lemma set_remove_idem x l : set_remove x (set_remove x l) = set_remove x l.
+Proof.
+  unfold set_remove. induction l as [|a l IH]; cbn; [reflexivity|].
+  destruct (negb (N.eqb a x)) eqn:E; cbn; [rewrite E, IH|]; auto.
+Qed.
+
+Lemma unlink_nil m x : unlink m [] x = m.
+Proof. reflexivity. Qed.
+
+Lemma unlink_get m ts x y :
+  aget (unlink m ts x) y =
+  match aget m y with Some l => Some (if mem y ts then set_remove x l else l) | None => None end.
+Proof.
+  unfold unlink. revert m. induction ts as [|y0 r IH]; intros m; cbn [fold_left mem existsb].
+  - destruct (aget m y); reflexivity.
+  - rewrite IH. fold (mem y r). destruct (aget m y0) as [l0|] eqn:G0.
+    + rewrite aget_aset. rewrite (N.eqb_sym y y0). destruct (N.eqb_spec y0 y) as [->|Hne].
+      * rewrite G0. cbn [orb]. destruct (mem y r); [now rewrite set_remove_idem|reflexivity].
+      * cbn [orb]. reflexivity.
+    + destruct (N.eqb_spec y y0) as [->|Hne]; [now rewrite G0|reflexivity].
+Qed.
+
+Definition lookup_l (m : list (N * list N)) (k : N) : list N := match aget m k with Some l => l | None => [] end.
+
+Lemma unlink_lookup m ts x y z :
+  In z (lookup_l (unlink m ts x) y) <-> In z (lookup_l m y) /\ (In y ts -> z <> x).
+Proof.
+  unfold lookup_l. rewrite unlink_get. destruct (aget m y) as [l|]; [|cbn; tauto].
+  destruct (mem y ts) eqn:M.
+  - apply mem_In in M. rewrite set_remove_In. tauto.
+  - apply mem_nIn in M. tauto.
+Qed.
+
+(* remove_transaction, with the two optional unlinks written uniformly *)
+Lemma remove_tx_eq g t :
+  remove_tx g t =
+  let rev1 := unlink (rev g) (succs g t) t in
+  W (unlink (adel (fwd g) t) (lookup_l rev1 t) t) (adel rev1 t) (adel (started g) t) (adel (prio g) t).
+Proof.
+  unfold remove_tx, succs, lookup_l. destruct (aget (fwd g) t) as [hs|]; cbn zeta.
+  - destruct (aget (unlink (rev g) hs t) t); reflexivity.
+  - rewrite unlink_nil. destruct (aget (rev g) t); reflexivity.
+Qed.
+
+Lemma lookup_adel m t k : lookup_l (adel m t) k = if N.eqb t k then [] else lookup_l m k.
+Proof. unfold lookup_l. rewrite aget_adel. destruct (N.eqb t k); reflexivity. Qed.
+
+(* exact effect of remove_transaction on both maps *)
+Lemma remove_tx_succs g t : GInv g -> forall w y,
+  In y (succs (remove_tx g t) w) <-> In y (succs g w) /\ w <> t /\ y <> t.
+Proof.
+  intros I w y. rewrite remove_tx_eq. cbn zeta. unfold succs at 1. cbn [fwd].
+  change (match aget ?m w with Some l => l | None => [] end) with (lookup_l m w).
+  rewrite unlink_lookup, lookup_adel. destruct (N.eqb_spec t w) as [->|Hne].
+  - cbn. tauto.
+  - change (lookup_l (fwd g) w) with (succs g w). split.
+    + intros [Hy Hc]. repeat split; auto. intros ->.
+      apply Hc; [|reflexivity]. apply unlink_lookup. split.
+      * apply I in Hy. exact Hy.
+      * intros _. congruence.
+    + intros [Hy [_ Hyt]]. split; auto.
+Qed.
+
+Lemma remove_tx_preds g t : GInv g -> forall h x,
+  In x (preds (remove_tx g t) h) <-> In x (preds g h) /\ h <> t /\ x <> t.
+Proof.
+  intros I h x. rewrite remove_tx_eq. cbn zeta. unfold preds at 1. cbn [rev].
+  change (match aget ?m h with Some l => l | None => [] end) with (lookup_l m h).
+  rewrite lookup_adel. destruct (N.eqb_spec t h) as [->|Hne].
+  - cbn. tauto.
+  - rewrite unlink_lookup. change (lookup_l (rev g) h) with (preds g h). split.
+    + intros [Hx Hc]. repeat split; auto. intros ->. apply Hc; [|reflexivity]. apply I. exact Hx.
+    + intros [Hx [_ Hxt]]. split; auto.
+Qed.
+
+Lemma remove_tx_GInv g t : GInv g -> GInv (remove_tx g t).
+Proof.
+  intros I w h. rewrite (remove_tx_succs g t I), (remove_tx_preds g t I). rewrite (I w h). tauto.
+Qed.
+
+(* after remove_transaction(t), t is neither waiter nor holder of any edge *)
+Lemma remove_tx_absent g t : GInv g -> forall x y,
+  (In y (succs (remove_tx g t) x) -> x <> t /\ y <> t) /\ (In x (preds (remove_tx g t) y) -> x <> t /\ y <> t).
+Proof.
+  intros I x y. rewrite (remove_tx_succs g t I), (remove_tx_preds g t I). tauto.
+Qed.
+
+(* add_wait *)
+Definition accepted (maxe : N) (g : wg) (w h : N) : bool :=
+  negb (N.eqb w h) && negb (N.ltb 0 maxe && N.leb maxe (N.of_nat (length (succs g w)))).
+
+Lemma add_wait_succs maxe now g w h p x y :
+  In y (succs (add_wait maxe now g w h p) x) <-> In y (succs g x) \/ (accepted maxe g w h = true /\ x = w /\ y = h).
+Proof.
+  unfold add_wait, accepted. destruct (N.eqb w h); cbn [negb andb]; [intuition discriminate|].
+  destruct (N.ltb 0 maxe && N.leb maxe (N.of_nat (length (succs g w)))); cbn [negb]; [intuition discriminate|].
+  unfold succs at 1; cbn [fwd]. rewrite aget_aset. destruct (N.eqb_spec w x) as [->|Hne].
+  - rewrite set_add_In. intuition.
+  - change (match aget (fwd g) x with Some l => l | None => [] end) with (succs g x). intuition congruence.
+Qed.
+
+Lemma add_wait_preds maxe now g w h p x y :
+  In x (preds (add_wait maxe now g w h p) y) <-> In x (preds g y) \/ (accepted maxe g w h = true /\ x = w /\ y = h).
+Proof.
+  unfold add_wait, accepted. destruct (N.eqb w h); cbn [negb andb]; [intuition discriminate|].
+  destruct (N.ltb 0 maxe && N.leb maxe (N.of_nat (length (succs g w)))); cbn [negb]; [intuition discriminate|].
+  unfold preds at 1; cbn [rev]. rewrite aget_aset. destruct (N.eqb_spec h y) as [->|Hne].
+  - rewrite set_add_In. intuition.
+  - change (match aget (rev g) y with Some l => l | None => [] end) with (preds g y). intuition congruence.
+Qed.
+
+Lemma add_wait_GInv maxe now g w h p : GInv g -> GInv (add_wait maxe now g w h p).
+Proof. intros I x y. rewrite add_wait_succs, add_wait_preds, (I x y). tauto. Qed.
+
+(* a self-wait is never recorded *)
+Lemma add_wait_no_self maxe now g w p : add_wait maxe now g w w p = g.
+Proof. unfold add_wait. now rewrite N.eqb_refl. Qed.
+
+(* remove_wait *)
+Lemma is_nil_spec {A} (l : list A) : is_nil l = true <-> l = [].
+Proof. destruct l; cbn; split; congruence. Qed.
+
+Lemma remove_wait_succs g w h x y :
+  In y (succs (remove_wait g w h) x) <-> In y (succs g x) /\ ~ (x = w /\ y = h).
+Proof.
+  unfold remove_wait. destruct (aget (fwd g) w) as [hs|] eqn:G.
+  - destruct (is_nil (set_remove h hs)) eqn:E; unfold succs; cbn [fwd].
+    + apply is_nil_spec in E. rewrite aget_adel. destruct (N.eqb_spec w x) as [->|Hne].
+      * rewrite G. split; [intros []|]. intros [Hy Hn].
+        assert (In y (set_remove h hs)) by (apply set_remove_In; split; [exact Hy|intros ->; tauto]).
+        rewrite E in H. destruct H.
+      * intuition congruence.
+    + rewrite aget_aset. destruct (N.eqb_spec w x) as [->|Hne].
+      * rewrite G, set_remove_In. intuition congruence.
+      * intuition congruence.
+  - unfold succs; cbn [fwd]. destruct (N.eqb_spec w x) as [->|Hne].
+    + rewrite G. cbn. tauto.
+    + intuition congruence.
+Qed.
+
+Lemma remove_wait_preds g w h x y :
+  In x (preds (remove_wait g w h) y) <-> In x (preds g y) /\ ~ (x = w /\ y = h).
+Proof.
+  unfold remove_wait. destruct (match aget (fwd g) w with Some hs => _ | None => _ end) as [f' s'].
+  destruct (aget (rev g) h) as [ws|] eqn:G.
+  - destruct (is_nil (set_remove w ws)) eqn:E; unfold preds; cbn [rev].
+    + apply is_nil_spec in E. rewrite aget_adel. destruct (N.eqb_spec h y) as [->|Hne].
+      * rewrite G. split; [intros []|]. intros [Hx Hn].
+        assert (In x (set_remove w ws)) by (apply set_remove_In; split; [exact Hx|intros ->; tauto]).
+        rewrite E in H. destruct H.
+      * intuition congruence.
+    + rewrite aget_aset. destruct (N.eqb_spec h y) as [->|Hne].
+      * rewrite G, set_remove_In. intuition congruence.
+      * intuition congruence.
+  - unfold preds; cbn [rev]. destruct (N.eqb_spec h y) as [->|Hne].
+    + rewrite G. cbn. tauto.
+    + intuition congruence.
+Qed.
+
+Lemma remove_wait_GInv g w h : GInv g -> GInv (remove_wait g w h).
+Proof. intros I x y. rewrite remove_wait_succs, remove_wait_preds, (I x y). tauto. Qed.
+
+(* ================================================================== 3. lock manager + graph over all op sequences *)
+Definition SInv (s : st) : Prop := TInv (tbl s) /\ GInv (gr s).
+
+Lemma init_SInv tmo0 maxe0 : SInv (init tmo0 maxe0).
+Proof. split; [apply empty_TInv|apply wg_empty_GInv]. Qed.
+
+Lemma fold_add_wait_GInv maxe now tx p bs g :
+  GInv g -> GInv (fold_left (fun g b => add_wait maxe now g tx b p) bs g).
+Proof. revert g. induction bs as [|b r IH]; intros g I; cbn; [exact I|]. apply IH. now apply add_wait_GInv. Qed.
+
+Lemma fold_remove_tx_GInv ts g : GInv g -> GInv (fold_left remove_tx ts g).
+Proof. revert g. induction ts as [|t r IH]; intros g I; cbn; [exact I|]. apply IH. now apply remove_tx_GInv. Qed.
+
+Lemma do_release_handle_wait_SInv s h : SInv s -> SInv (do_release_handle_wait s h).
+Proof.
+  intros [Ht Hg]. unfold do_release_handle_wait. destruct (handle_owner h (tbl s)); split; cbn;
+    try (now apply release_by_handle_TInv); try assumption. now apply remove_tx_GInv.
+Qed.
+
+Lemma fold_release_handle_wait_SInv hs s : SInv s -> SInv (fold_left do_release_handle_wait hs s).
+Proof. revert s. induction hs as [|h r IH]; intros s I; cbn; [exact I|]. apply IH. now apply do_release_handle_wait_SInv. Qed.
+
+Lemma do_finish_SInv rel unw s tx hs : SInv s -> SInv (do_finish rel unw s tx hs).
+Proof.
+  intros I. unfold do_finish. pose proof (fold_release_handle_wait_SInv hs s I) as [Ht Hg].
+  destruct rel, unw; split; cbn; try assumption; try (now apply release_TInv); try (now apply remove_tx_GInv).
+Qed.
+
+Lemma do_cleanup_wait_SInv s : SInv s -> SInv (fst (do_cleanup_wait s)).
+Proof.
+  intros [Ht Hg]. unfold do_cleanup_wait.
+  pose proof (cleanup_expired_TInv (now s) (tbl s) Ht) as Hc.
+  destruct (cleanup_expired (now s) (tbl s)) as [t' n]. cbn in *. split; cbn; [exact Hc|now apply fold_remove_tx_GInv].
+Qed.
+
+Lemma fold_finish_SInv rel unw fin s :
+  SInv s -> SInv (fold_left (fun s f => do_finish rel unw s (fst f) (snd f)) fin s).
+Proof. revert s. induction fin as [|f r IH]; intros s I; cbn; [exact I|]. apply IH. now apply do_finish_SInv. Qed.
+
+Lemma step_SInv rel unw s o : SInv s -> SInv (fst (step rel unw s o)).
+Proof.
+  intros I. pose proof I as [Ht Hg]. destruct o; cbn [step].
+  - unfold do_try_lock. pose proof (try_lock_TInv (now s) tx (nexth s) (tmo s) keys (tbl s) Ht) as H.
+    destruct (try_lock (now s) tx (nexth s) (tmo s) keys (tbl s)) as [t' [h|o]]; cbn in *; [split; assumption|exact I].
+  - unfold do_try_lock_wait. destruct (all_conflicts _ _ _ _ _ _) as [bs cks]. destruct bs as [|b r]; cbn.
+    + split; cbn; [now apply acquire_TInv|now apply remove_tx_GInv].
+    + split; cbn; [assumption|]. apply (fold_add_wait_GInv _ _ _ _ (b :: r)). exact Hg.
+  - split; cbn; [now apply release_TInv|assumption].
+  - split; cbn; [now apply release_by_handle_TInv|assumption].
+  - now apply do_release_handle_wait_SInv.
+  - pose proof (cleanup_expired_TInv (now s) (tbl s) Ht) as Hc.
+    destruct (cleanup_expired (now s) (tbl s)) as [t' n]. cbn in *. split; assumption.
+  - now apply do_cleanup_wait_SInv.
+  - exact I.
+  - exact I.
+  - exact I.
+  - split; cbn; [assumption|now apply add_wait_GInv].
+  - split; cbn; [assumption|now apply remove_tx_GInv].
+  - split; cbn; [assumption|now apply remove_wait_GInv].
+  - now apply do_finish_SInv.
+  - cbn. apply do_cleanup_wait_SInv. now apply fold_finish_SInv.
+Qed.
+
+Lemma run_SInv rel unw ops s : SInv s -> SInv (run rel unw s ops).
+Proof. revert s. induction ops as [|o r IH]; intros s I; cbn; [exact I|]. apply IH. now apply step_SInv. Qed.
+
+Theorem reachable_SInv rel unw tmo0 maxe0 ops : SInv (run rel unw (init tmo0 maxe0) ops).
+Proof. apply run_SInv, init_SInv. Qed.
+
+(* ---------------------------------------------------------------- refusal / all-or-nothing / one holder *)
+Lemma all_conflicts_spec now tx keys lk : forall bs0 ks0 bs ks,
+  all_conflicts now tx keys lk bs0 ks0 = (bs, ks) ->
+  (forall b, In b bs <-> In b bs0 \/ exists k, In k keys /\ blocks now tx lk k = Some b).
+Proof.
+  induction keys as [|k0 r IH]; intros bs0 ks0 bs ks H b; cbn in H.
+  - injection H as <- <-. split; [auto|]. intros [?|[k [[] _]]]. assumption.
+  - destruct (blocks now tx lk k0) as [o|] eqn:B.
+    + rewrite (IH _ _ _ _ H b), set_add_In. split.
+      * intros [[->|Hb]|[k [Hk Bk]]]; [right; exists k0; cbn; auto|auto|right; exists k; cbn; auto].
+      * intros [Hb|[k [[<-|Hk] Bk]]]; [auto| |right; eauto]. left. left. congruence.
+    + rewrite (IH _ _ _ _ H b). split.
+      * intros [Hb|[k [Hk Bk]]]; [auto|right; exists k; cbn; auto].
+      * intros [Hb|[k [[<-|Hk] Bk]]]; [auto|congruence|right; eauto].
+Qed.
+
+Definition is_lock_op (o : op) (tx : N) (keys : list N) : Prop :=
+  o = OTryLock tx keys \/ exists p, o = OTryLockWait tx keys p.
+
+(* a request is either granted on EVERY key, or refused because of a real unexpired foreign holder of one of
+   the requested keys, in which case the lock table is unchanged *)
+Theorem lock_all_or_nothing rel unw s o tx keys : is_lock_op o tx keys ->
+  let s' := fst (step rel unw s o) in let ret := snd (step rel unw s o) in
+  (exists h, ret = [0; h] /\ forall k, In k keys -> holder (now s') (tbl s') k = Some tx)
+  \/ (exists b r, ret = 1 :: b :: r /\ tbl s' = tbl s /\ b <> tx /\
+        exists k, In k keys /\ holder (now s) (tbl s) k = Some b).
+Proof.
+  intros [->|[p ->]]; cbn [step].
+  - unfold do_try_lock. destruct (try_lock (now s) tx (nexth s) (tmo s) keys (tbl s)) as [t' [h|o]] eqn:E; cbn.
+    + left. exists h. split; [reflexivity|]. intros k Hk. eapply try_lock_granted_holds; eauto.
+    + right. apply try_lock_refused_by_holder in E. destruct E as [_ [Hne [k [Hk Hh]]]].
+      exists o, []. repeat split; auto. eauto.
+  - unfold do_try_lock_wait. destruct (all_conflicts (now s) tx keys (locks (tbl s)) [] []) as [bs cks] eqn:E.
+    pose proof (all_conflicts_spec _ _ _ _ _ _ _ _ E) as Sp. destruct bs as [|b r]; cbn.
+    + left. exists (nexth s). split; [reflexivity|]. intros k Hk. unfold holder, acquire; cbn [locks].
+      rewrite insert_all_get. apply mem_In in Hk. rewrite Hk, fresh_lock_unexpired. reflexivity.
+    + right. exists b, cks. split; [reflexivity|]. split; [reflexivity|].
+      destruct (proj1 (Sp b) (or_introl eq_refl)) as [[]|[k [Hk B]]].
+      apply blocks_holder in B. destruct B. split; [assumption|]. eauto.
+Qed.
+
+(* a request that meets a key held by another unexpired transaction is refused *)
+Theorem lock_refused_when_held rel unw s o tx keys k a : is_lock_op o tx keys ->
+  In k keys -> holder (now s) (tbl s) k = Some a -> a <> tx ->
+  exists b r, snd (step rel unw s o) = 1 :: b :: r /\ tbl (fst (step rel unw s o)) = tbl s.
+Proof.
+  intros [->|[p ->]] Hk Hh Hne; cbn [step].
+  - unfold do_try_lock. destruct (try_lock_refuses (now s) tx (nexth s) (tmo s) keys (tbl s) k a Hk Hh Hne) as [o E].
+    rewrite E. cbn. eauto.
+  - unfold do_try_lock_wait. destruct (all_conflicts (now s) tx keys (locks (tbl s)) [] []) as [bs cks] eqn:E.
+    pose proof (all_conflicts_spec _ _ _ _ _ _ _ _ E) as Sp. destruct bs as [|b r]; cbn; [|eauto].
+    exfalso. apply (proj2 (Sp a)). right. exists k. split; [exact Hk|]. apply blocks_holder. auto.
+Qed.
+
+(* whatever one transaction requests or releases, a key held by ANOTHER unexpired transaction keeps its holder *)
+Theorem foreign_holder_kept rel unw s o tx keys k a :
+  is_lock_op o tx keys \/ o = ORelease tx ->
+  holder (now s) (tbl s) k = Some a -> a <> tx ->
+  holder (now (fst (step rel unw s o))) (tbl (fst (step rel unw s o))) k = Some a.
+Proof.
+  intros [[->|[p ->]]| ->] Hh Hne; cbn [step].
+  - unfold do_try_lock. destruct (try_lock (now s) tx (nexth s) (tmo s) keys (tbl s)) as [t' [h|o]] eqn:E; cbn; [|exact Hh].
+    eapply try_lock_keeps_foreign; eauto.
+  - unfold do_try_lock_wait. destruct (all_conflicts (now s) tx keys (locks (tbl s)) [] []) as [bs cks] eqn:E.
+    pose proof (all_conflicts_spec _ _ _ _ _ _ _ _ E) as Sp. destruct bs as [|b r]; cbn; [|exact Hh].
+    unfold holder, acquire; cbn [locks]. rewrite insert_all_get. destruct (mem k keys) eqn:M; [|exact Hh].
+    exfalso. apply mem_In in M. apply (proj2 (Sp a)). right. exists k. split; [exact M|]. apply blocks_holder. auto.
+  - cbn. apply holder_Some in Hh. destruct Hh as [e [G [Ex Ho]]]. apply holder_Some. exists e. repeat split; auto.
+    apply release_keeps_foreign; congruence.
+Qed.
+
+(* ---------------------------------------------------------------- nothing left behind *)
+(* tx owns no lock and is neither waiter nor holder of any wait edge *)
+Definition Clean (tx : N) (s : st) : Prop :=
+  (forall k e, aget (locks (tbl s)) k = Some e -> owner e <> tx) /\
+  (forall x y, In y (succs (gr s) x) -> x <> tx /\ y <> tx) /\
+  (forall x y, In x (preds (gr s) y) -> x <> tx /\ y <> tx).
+
+(* s' has no lock and no edge that s does not have *)
+Definition Shrinks (s s' : st) : Prop :=
+  (forall k e, aget (locks (tbl s')) k = Some e -> aget (locks (tbl s)) k = Some e) /\
+  (forall x y, In y (succs (gr s') x) -> In y (succs (gr s) x)) /\
+  (forall x y, In x (preds (gr s') y) -> In x (preds (gr s) y)).
+
+Lemma Shrinks_refl s : Shrinks s s. Proof. repeat split; auto. Qed.
+Lemma Shrinks_trans a b c : Shrinks a b -> Shrinks b c -> Shrinks a c.
+Proof. intros [A1 [A2 A3]] [B1 [B2 B3]]. repeat split; auto. Qed.
+Lemma Clean_Shrinks tx s s' : Clean tx s -> Shrinks s s' -> Clean tx s'.
+Proof.
+  intros [C1 [C2 C3]] [S1 [S2 S3]]. split; [|split].
+  - intros k e H. exact (C1 k e (S1 k e H)).
+  - intros x y H. exact (C2 x y (S2 x y H)).
+  - intros x y H. exact (C3 x y (S3 x y H)).
+Qed.
+
+Lemma remove_fold_only_removes ks t k e :
+  aget (locks (fold_left remove_locked ks t)) k = Some e -> aget (locks t) k = Some e.
+Proof. rewrite remove_fold_get. destruct (mem k ks); [discriminate|auto]. Qed.
+
+Lemma remove_tx_Shrinks_gr g t : GInv g ->
+  (forall x y, In y (succs (remove_tx g t) x) -> In y (succs g x)) /\
+  (forall x y, In x (preds (remove_tx g t) y) -> In x (preds g y)).
+Proof.
+  intros I. split; intros x y H.
+  - apply (remove_tx_succs g t I) in H. tauto.
+  - apply (remove_tx_preds g t I) in H. tauto.
+Qed.
+
+Lemma fold_remove_tx_Shrinks_gr ts g : GInv g ->
+  (forall x y, In y (succs (fold_left remove_tx ts g) x) -> In y (succs g x)) /\
+  (forall x y, In x (preds (fold_left remove_tx ts g) y) -> In x (preds g y)).
+Proof.
+  revert g. induction ts as [|t r IH]; intros g I; cbn; [split; auto|].
+  destruct (IH _ (remove_tx_GInv g t I)) as [A B]. destruct (remove_tx_Shrinks_gr g t I) as [C D].
+  split; intros; auto.
+Qed.
+
+Lemma do_release_handle_wait_Shrinks s h : SInv s -> Shrinks s (do_release_handle_wait s h).
+Proof.
+  intros [Ht Hg]. unfold do_release_handle_wait. destruct (handle_owner h (tbl s)) as [t|]; cbn.
+  - destruct (remove_tx_Shrinks_gr (gr s) t Hg) as [A B]. repeat split; cbn; auto.
+    intros k e. apply remove_fold_only_removes.
+  - repeat split; cbn; auto. intros k e. apply remove_fold_only_removes.
+Qed.
+
+Lemma fold_release_handle_wait_Shrinks hs s : SInv s -> Shrinks s (fold_left do_release_handle_wait hs s).
+Proof.
+  revert s. induction hs as [|h r IH]; intros s I; cbn; [apply Shrinks_refl|].
+  eapply Shrinks_trans; [apply do_release_handle_wait_Shrinks; exact I|].
+  apply IH. now apply do_release_handle_wait_SInv.
+Qed.
+
+Lemma do_finish_Shrinks rel unw s tx hs : SInv s -> Shrinks s (do_finish rel unw s tx hs).
+Proof.
+  intros I. unfold do_finish.
+  pose proof (fold_release_handle_wait_Shrinks hs s I) as Sh.
+  pose proof (fold_release_handle_wait_SInv hs s I) as [Ht Hg].
+  set (s1 := fold_left do_release_handle_wait hs s) in *.
+  eapply Shrinks_trans; [exact Sh|].
+  destruct (remove_tx_Shrinks_gr (gr s1) tx Hg) as [A B].
+  destruct rel, unw; repeat split; cbn; auto; intros k e; apply release_only_removes.
+Qed.
+
+Lemma do_cleanup_wait_Shrinks s : SInv s -> Shrinks s (fst (do_cleanup_wait s)).
+Proof.
+  intros [Ht Hg]. unfold do_cleanup_wait, cleanup_expired. cbn.
+  destruct (fold_remove_tx_Shrinks_gr (expired_owners (now s) (locks (tbl s))) (gr s) Hg) as [A B].
+  repeat split; cbn; auto. intros k e. apply remove_fold_only_removes.
+Qed.
+
+(* commit / abort / timeout of tx (with release-by-tx and remove_transaction in the body) leaves nothing of tx *)
+Theorem finish_Clean s tx hs : SInv s -> Clean tx (do_finish true true s tx hs).
+Proof.
+  intros I. unfold do_finish.
+  pose proof (fold_release_handle_wait_SInv hs s I) as [[Hu Hi] Hg].
+  set (s1 := fold_left do_release_handle_wait hs s) in *.
+  split; [|split]; cbn.
+  - intros k e H. exact (release_none_left tx (tbl s1) Hi k e H).
+  - intros x y H. exact (proj1 (remove_tx_absent (gr s1) tx Hg x y) H).
+  - intros x y H. exact (proj2 (remove_tx_absent (gr s1) tx Hg x y) H).
+Qed.
+
+(* release(tx) leaves no lock of tx *)
+Theorem release_leaves_no_lock s tx : SInv s ->
+  forall k e, aget (locks (release tx (tbl s))) k = Some e -> owner e <> tx.
+Proof. intros [[_ Hi] _]. now apply release_none_left. Qed.
+
+(* remove_transaction(tx) leaves no edge of tx *)
+Theorem remove_tx_leaves_no_edge s tx : SInv s -> forall x y,
+  (In y (succs (remove_tx (gr s) tx) x) -> x <> tx /\ y <> tx) /\
+  (In x (preds (remove_tx (gr s) tx) y) -> x <> tx /\ y <> tx).
+Proof. intros [_ Hg]. now apply remove_tx_absent. Qed.
+
+(* cleanup_timeouts: every timed-out transaction is clean after the whole sweep *)
+Lemma fold_finish_Shrinks rel unw fin s :
+  SInv s -> Shrinks s (fold_left (fun s f => do_finish rel unw s (fst f) (snd f)) fin s).
+Proof.
+  revert s. induction fin as [|f r IH]; intros s I; cbn; [apply Shrinks_refl|].
+  eapply Shrinks_trans; [apply do_finish_Shrinks; exact I|]. apply IH. now apply do_finish_SInv.
+Qed.
+
+Theorem timeouts_Clean fin s : SInv s -> forall f, In f fin ->
+  Clean (fst f) (fst (step true true s (OTimeouts fin))).
+Proof.
+  intros I f Hf. cbn [step fst].
+  assert (G: forall fin s, SInv s -> In f fin ->
+             Clean (fst f) (fold_left (fun s f => do_finish true true s (fst f) (snd f)) fin s)).
+  { clear. induction fin as [|f0 r IH]; intros s I Hin; [destruct Hin|]. destruct Hin as [->|Hin]; cbn [fold_left].
+    - eapply Clean_Shrinks; [apply (finish_Clean s (fst f) (snd f) I)|].
+      apply fold_finish_Shrinks. now apply do_finish_SInv.
+    - apply IH; [now apply do_finish_SInv|exact Hin]. }
+  eapply Clean_Shrinks; [apply G; eauto|]. apply do_cleanup_wait_Shrinks. now apply fold_finish_SInv.
+Qed.
+
+(* expiry: a lock past its timeout is no holder, and the sweep removes exactly the expired locks *)
+Theorem expired_not_held now t k e : aget (locks t) k = Some e -> (timeout e < now - acquired e) -> holder now t k = None.
+Proof. intros G H. unfold holder, expired. rewrite G. apply N.ltb_lt in H. now rewrite H. Qed.
+
+Theorem sweep_exact s : SInv s ->
+  let t' := fst (cleanup_expired (now s) (tbl s)) in
+  (forall k, holder (now s) t' k = holder (now s) (tbl s) k) /\
+  (forall k e, aget (locks t') k = Some e -> expired (now s) e = false).
+Proof.
+  intros [[Hu _] _]. split; [intros; now apply cleanup_expired_holder|intros k e; now apply cleanup_expired_none_expired].
+Qed.
+
+(* ================================================================== 4. detect_cycles on the wait-for graph, detector, victim *)
+Lemma aget_key_in {V} (l : list (N * V)) k v : aget l k = Some v -> In k (map fst l).
+Proof. intros H. apply aget_In in H. change k with (fst (k, v)). now apply in_map. Qed.
+
+Lemma succs_start g x y : In y (succs g x) -> In x (map fst (fwd g)).
+Proof. unfold succs. destruct (aget (fwd g) x) eqn:G; [intros _; eapply aget_key_in; eauto|intros []]. Qed.
+
+(* WaitForGraph::detect_cycles: every reported list is a cycle of the recorded relation, and
+   something is reported exactly when the recorded relation has a cycle *)
+Theorem detect_cycles_sound g cs : detect_cycles g = Some cs -> Forall (is_cycle (succs g)) cs.
+Proof.
+  unfold detect_cycles. destruct (detect_from _ _ _) as [r|] eqn:E; [|discriminate]. intros [= <-].
+  apply Forall_rev. eapply detect_sound; eauto.
+Qed.
+
+Theorem detect_cycles_iff g cs : detect_cycles g = Some cs -> (cs <> [] <-> exists x, rp (succs g) x x).
+Proof.
+  unfold detect_cycles. destruct (detect_from _ _ _) as [r|] eqn:E; [|discriminate]. intros [= <-].
+  rewrite <- (detect_from_iff (succs g) _ _ r (succs_start g) E).
+  split; intros H C; apply H.
+  - rewrite C. reflexivity.
+  - apply (f_equal (@List.rev _)) in C. now rewrite rev_involutive in C.
+Qed.
+
+(* victim selection *)
+Lemma max_by_in f l : forall b, In (max_by f b l) (b :: l).
+Proof.
+  induction l as [|x r IH]; intros b; cbn [max_by]; [now left|].
+  destruct (IH (if N.leb (f b) (f x) then x else b)) as [H|H].
+  - destruct (N.leb (f b) (f x)); [right; left|left]; auto.
+  - right; right; exact H.
+Qed.
+Lemma min_by_in f l : forall b, In (min_by f b l) (b :: l).
+Proof.
+  induction l as [|x r IH]; intros b; cbn [min_by]; [now left|].
+  destruct (IH (if N.ltb (f x) (f b) then x else b)) as [H|H].
+  - destruct (N.ltb (f x) (f b)); [right; left|left]; auto.
+  - right; right; exact H.
+Qed.
+
+Theorem select_victim_in pol ws pr lc cycle : cycle <> [] -> In (select_victim pol ws pr lc cycle) cycle.
+Proof.
+  intros Hne. destruct cycle as [|x r]; [congruence|]. unfold select_victim.
+  destruct r as [|y r]; [now left|].
+  destruct (N.eqb pol 0); [apply max_by_in|].
+  destruct (N.eqb pol 1); [apply min_by_in|].
+  destruct (N.eqb pol 2); [apply max_by_in|].
+  destruct lc; apply max_by_in.
+Qed.
+
+(* the cascading loop *)
+Lemma detect_loop_in cm sel cycles : forall vs n c v,
+  In (c, v) (detect_loop cm sel cycles vs n) -> In c cycles /\ v = sel c.
+Proof.
+  induction cycles as [|c0 r IH]; intros vs n c v H; cbn [detect_loop] in H; [destruct H|].
+  destruct (existsb _ c0 && N.ltb n cm).
+  - apply IH in H. destruct H. split; [right|]; assumption.
+  - destruct H as [[= <- <-]|H]; [split; [now left|reflexivity]|].
+    apply IH in H. destruct H. split; [right|]; assumption.
+Qed.
+
+Lemma detect_loop_nil cm sel cycles n : detect_loop cm sel cycles [] n = [] <-> cycles = [].
+Proof.
+  destruct cycles as [|c r]; cbn [detect_loop]; [tauto|].
+  assert (E: existsb (fun tx => mem tx []) c = false) by (induction c; cbn; auto).
+  rewrite E. cbn. split; discriminate.
+Qed.
+
+(* DeadlockDetector::detect on a cycle list: every deadlock names one of the cycles, within max_cycle_length,
+   with the selected victim; something is reported exactly when a cycle is within the length limit *)
+Theorem detect_spec cfg sel cycles :
+  (forall c v, In (c, v) (detect cfg sel cycles) ->
+     In c cycles /\ short_enough (max_cycle cfg) c = true /\ v = sel c) /\
+  (detect cfg sel cycles <> [] <-> enabled cfg = true /\ exists c, In c cycles /\ short_enough (max_cycle cfg) c = true).
+Proof.
+  unfold detect. destruct (enabled cfg).
+  - split.
+    + intros c v H. apply detect_loop_in in H. destruct H as [H ->]. apply filter_In in H. tauto.
+    + rewrite detect_loop_nil. split.
+      * intros H. split; [reflexivity|]. destruct (filter _ cycles) as [|c r] eqn:F; [congruence|].
+        exists c. apply filter_In. rewrite F. now left.
+      * intros [_ [c Hc]] F. apply filter_In in Hc. rewrite F in Hc. destruct Hc.
+  - split; [intros c v []|]. split; [congruence|intros [? _]; discriminate].
+Qed.
+
+(* the end-to-end statement on one graph *)
+Theorem deadlock_report g cs cfg pol ws pr lc :
+  detect_cycles g = Some cs -> enabled cfg = true ->
+  (forall c, In c cs -> short_enough (max_cycle cfg) c = true) ->
+  let ds := detect cfg (select_victim pol ws pr lc) cs in
+  (ds <> [] <-> exists x, rp (succs g) x x) /\
+  (forall c v, In (c, v) ds -> is_cycle (succs g) c /\ In v c).
+Proof.
+  intros Hd He Hs ds. destruct (detect_spec cfg (select_victim pol ws pr lc) cs) as [A B]. split.
+  - unfold ds. rewrite B, <- (detect_cycles_iff g cs Hd). split.
+    + intros [_ [c [Hc _]]] E. subst. destruct Hc.
+    + intros Hne. split; [exact He|]. destruct cs as [|c r]; [congruence|]. exists c. split; [now left|]. apply Hs. now left.
+  - intros c v H. apply A in H. destruct H as [Hc [_ ->]].
+    pose proof (detect_cycles_sound g cs Hd) as F. rewrite Forall_forall in F. specialize (F c Hc).
+    split; [exact F|]. apply select_victim_in. destruct F as [Hne _]. exact Hne.
+Qed.
